@@ -384,6 +384,37 @@ fn fixed_cases(seed: u64) -> Vec<Case> {
             });
         }
     }
+    // near-equal messages: pairs of the same length that differ in one octet only (64 octets and longer as well)
+    for (k, lens) in [vec![64usize, 0, 100, 0], vec![127, 0, 0, 256, 0], vec![7, 0, 1000, 0], vec![96, 0, 0, 0]].into_iter().enumerate() {
+        for rep_ in 0..3u32 {
+            let mut prev_long = 0usize;
+            let items: Vec<BSpec> = lens
+                .iter()
+                .enumerate()
+                .map(|(j, &len)| {
+                    if len > 0 {
+                        prev_long = j;
+                        BSpec { len, class: 0, seed: splitmix(&mut st) as u32 }
+                    } else {
+                        // near-copy of the last long message: index, position and bit from the seed
+                        let mut sd = splitmix(&mut st) as u32;
+                        while (sd as usize) % j != prev_long {
+                            sd = sd.wrapping_add(1);
+                        }
+                        BSpec { len: 0, class: 6, seed: sd }
+                    }
+                })
+                .collect();
+            out.push(Case {
+                suite: if (k as u32 + rep_) % 2 == 0 { SuiteId::Sha256 } else { SuiteId::Shake256 },
+                key: KeySpec { fixture: false, ikm: BSpec { len: 32, class: 0, seed: splitmix(&mut st) as u32 }, key_info: OptBytes::None, key_dst: OptBytes::None },
+                header: OptBytes::Bytes(BSpec { len: 16, class: 0, seed: 5 }),
+                msgs: MsgVec { items },
+                mut_seed: splitmix(&mut st) as u32,
+                light: false,
+            });
+        }
+    }
     // long data: messages and headers of 300 octets up to 256 KiB, with the catalogue's first / last-octet,
     // shorter / longer edits
     for (k, (mlens, hlen)) in [
@@ -508,7 +539,7 @@ pub fn run(ctx: &Ctx, rep: &Report) -> Meta {
     let tier = ctx.tier;
     run_cases(ctx, rep, "mutations", ctx.tier.pick(72, 600), 200, || strat(tier), |c| check(rep, "mutations", c));
     Meta {
-        rule: "honest (suite, key, header, msgs, signature) then the mutation catalogue enumerated per case: message byte change (random octet; first / last octet, one octet shorter / longer, leading zero octet for the first, last and one random message) / delete / prefix at every position, long data (messages and headers of 300 octets to 256 KiB), header-length-sweep: every header length 0..=1100 (quick) / 2400 for L in {1, 3, 10, 17} with tail edits, \
+        rule: "honest (suite, key, header, msgs, signature) then the mutation catalogue enumerated per case: message byte change (random octet; first / last octet, one octet shorter / longer, leading zero octet for the first, last and one random message) / delete / prefix at every position, near-equal messages (same length, one octet apart, 7 to 1000 octets) in one vector, long data (messages and headers of 300 octets to 256 KiB), header-length-sweep: every header length 0..=1100 (quick) / 2400 for L in {1, 3, 10, 17} with tail edits, \
                insert (random, empty, neighbour) at every position 0..=L, extension by 1..=3, swap and replace-by-other of every pair with different contents (all pairs for L<=12), \
                header edits as octet strings, pk in {other key, pk+G2, -pk}, every single-bit flip of the 80 signature octets (all 640 for L<=12), cross-suite, cross-interface in both directions (including the degenerate blind signature without commitment and without messages under every spelling of 'nothing', and the header-only plain signature through the blind verifier); \
                the same catalogue under contention in a cold process, re-priming with the honest verification before the spelling / suite / interface families, all pairs swapped for half of the fixed shapes up to L = 33; oracle: every mutated verification (or decoding) returns Err; non-trivial = honest case with >= 5 mutation families executed; evaluations = mutated verifications"
